@@ -12,7 +12,7 @@ from lcm.user_model import Model
 G = LinspaceGrid(start=0, stop=1, n_points=2)
 
 
-def _utility(v1, v2, p1, f1, _period, zeta):
+def _utility(v1, v2, p1, f1, _period, zeta=2.0):
     return 0
 
 
@@ -20,7 +20,7 @@ def _f1(v2, v3, p1, p2):
     return 0
 
 
-def _f2(f1, v1, p2, alpha):
+def _f2(f1, v1, p2, alpha=0.5):  # a free parameter WITH a python default is still a parameter
     return 0
 
 
